@@ -9,7 +9,7 @@ Property theorems (listed in harness/props/c16.py):
   plural_choice, plural_missing_count, ungettext_receives_count — plural triples
   findTransformer_eq_spec, transformer_full_fails, translator_applied, expand_plain_refines,
   expand_plural_refines                                         — translators, A ⊨ B
-  expand_total, no_percent_left                                 — complete expansion
+  expand_total, no_percent_left, expandMessage_ok_expansion     — complete expansion
   catalogue_placeholders, catalogue_complete, builtin_keys_supplied,
   builtin_no_escape, builtin_expand_total, catalogue_expand_total — the regenerated tables
 -/
@@ -492,6 +492,77 @@ theorem expand_total (tmpl : Str) (segs : List Seg) (targets : List Target) (u :
           | none => rw [hr] at hk'; cases hk'
           | some v => rfl)
       simp only [this]
+
+theorem render_ok_expansion (targets : List Target) (u : Option UTr) (segs : List Seg) (s : Str)
+    (h : render (fmLookup targets u) segs = .ok s) :
+    s = expansion (fun k => trVal u ((rawLookup targets k).getD .none)) segs := by
+  induction segs generalizing s with
+  | nil => simp [render] at h; subst h; rfl
+  | cons seg rest ih =>
+    cases seg with
+    | ch c =>
+      simp only [render, bind, Except.bind, pure, Except.pure] at h
+      cases hr : render (fmLookup targets u) rest with
+      | error r => rw [hr] at h; cases h
+      | ok x =>
+        rw [hr] at h
+        cases h
+        simp only [expansion, ih x hr]
+    | ph k =>
+      simp only [render, bind, Except.bind, pure, Except.pure, fmLookup_eq] at h
+      cases hl : rawLookup targets k with
+      | none => rw [hl] at h; cases h
+      | some v =>
+        rw [hl] at h
+        simp only at h
+        cases hr : render (fmLookup targets u) rest with
+        | error r => rw [hr] at h; cases h
+        | ok x =>
+          rw [hr] at h
+          cases h
+          simp only [expansion, hl, Option.getD, ih x hr]
+
+/-- every *successful* `%` expansion is complete: the template was well-formed and the result
+    is its segment list with every placeholder replaced by the (translated) value's text -/
+theorem pyFormat_ok_expansion (tmpl : Str) (targets : List Target) (u : Option UTr) (s : Str)
+    (h : pyFormat tmpl (fmLookup targets u) = .ok s) :
+    ∃ segs, parseFmt tmpl = .ok segs ∧
+      s = expansion (fun k => trVal u ((rawLookup targets k).getD .none)) segs := by
+  unfold pyFormat at h
+  unfold parseFmt
+  cases hsc : scanFmt tmpl with
+  | mk segs err =>
+    rw [hsc] at h
+    simp only at h
+    cases hr : render (fmLookup targets u) segs with
+    | error r => rw [hr] at h; cases h
+    | ok x =>
+      rw [hr] at h
+      cases err with
+      | some r => cases h
+      | none =>
+        have hx : x = s := by injection h
+        subst hx
+        exact ⟨segs, rfl, render_ok_expansion targets u segs x hr⟩
+
+/-- **no message is ever recorded half-expanded**: whatever `expand_message` returns is the
+    complete expansion of some (chosen, translated) well-formed template -/
+theorem expandMessage_ok_expansion (e : Env) (m : Msg) (s : Str)
+    (h : expandMessage e m = .ok s) :
+    ∃ u text segs, parseFmt text = .ok segs ∧
+      s = expansion (fun k => trVal u ((rawLookup e.targets k).getD .none)) segs := by
+  unfold expandMessage at h
+  cases hu : findTransformer e.uState e.uAnc e.uBuiltin with
+  | error r => rw [hu] at h; cases h
+  | ok u =>
+    rw [hu] at h
+    simp only [bind, Except.bind] at h
+    cases hc : chooseMessage e u m with
+    | error r => rw [hc] at h; cases h
+    | ok text =>
+      rw [hc] at h
+      obtain ⟨segs, hp, hs⟩ := pyFormat_ok_expansion text e.targets u s h
+      exact ⟨u, text, segs, hp, hs⟩
 
 example : (parseFmt "%(a)s: 100%%".toList).toOption =
     some [.ph ['a'], .ch ':', .ch ' ', .ch '1', .ch '0', .ch '0', .ch '%'] := by decide
